@@ -3,7 +3,7 @@ import itertools, json
 from fractions import Fraction
 import numpy as np
 from harness import votelib as V
-from harness.common import pmap, lean_query, guard, fr, safe_judge
+from harness.common import pmap, lean_query, guard, fr, safe_judge, persist, persist_rule
 from harness.c01 import chunks
 
 LEVEL = "proof"
@@ -19,7 +19,7 @@ def impl_batch(case):
     shared = {}     # rule objects are reused across calls, as a caller would
     for it in case["items"]:
         try:
-            prof = StrictCompleteProfile.of(np.array(it["P"], dtype=np.int64))
+            prof = persist("eatP", np.array(it["P"], dtype=np.int64), StrictCompleteProfile.of)
             z = it.get("zero", False)
             if it.get("ps"):
                 rule = shared.setdefault(("ps", z), ProbabilisticSerial(zero_indexed=z))
